@@ -24,8 +24,36 @@ package parser
 
 // Type.Equals compares two type descriptors structurally; it reads but never changes them.
 //@ func (t *Type) Equals(t2 *Type) (r bool)
-//@   noverify contract used by callers in package evaluator; the body is verified under C04
-//@   ensures r == typeEq(t, t2)
+//@   props C04
+//@   opt nilrecv true
+//@   ensures[assumed-abstract-name] r == typeEq(t, t2)
+//@   ensures[C04 structural-equality] r == eqT(t, t2)
+//@   modifies nothing
+//@   loop 1 invariant eqT(t, t2) == eqT(left, right)
+//@   loop 1 decreases depth(left)
+
+//@ func (t *Type) accepts(t2 *Type) (r bool)
+//@   props C04
+//@   opt nilrecv true
+//@   ensures[C04 assignability] r == acc(t, t2, false, true)
+//@   modifies nothing
+//@   loop 1 invariant acc(t, t2, false, true) == acc(left, right, rightFixed, left == t) && (left != t ==> depth(left) < depth(t))
+//@   loop 1 decreases depth(left)
+
+//@ func (t *Type) matches(t2 *Type) (r bool)
+//@   props C04
+//@   opt nilrecv true
+//@   ensures[C04 operand-compatibility] r == mat(t, t2)
+//@   modifies nothing
+//@   loop 1 invariant mat(t, t2) == mat(left, right)
+//@   loop 1 decreases depth(left)
+
+//@ func fixedType(t *Type) (r *Type)
+//@   props C04
+//@   requires t != nil
+//@   ensures[C04 basic-unchanged] t.Name != ARRAY && t.Name != MAP ==> r == t
+//@   ensures[C04 interned-unchanged] t == GENERIC_ARRAY || t == GENERIC_MAP || t == EMPTY_ARRAY || t == EMPTY_MAP ==> r == t
+//@   ensures[C04 composite-fixed] (t.Name == ARRAY || t.Name == MAP) && t != GENERIC_ARRAY && t != GENERIC_MAP && t != EMPTY_ARRAY && t != EMPTY_MAP ==> fresh(r) && r.Fixed && r.Name == t.Name && r.Sub == t.Sub
 //@   modifies nothing
 
 // Parse either returns a program or a non-nil error (C03); a returned program is well-formed for the
@@ -58,4 +86,46 @@ package parser
 // Format renders the program; it does not change the tree the evaluator sees (comment/whitespace bookkeeping only).
 //@ func (p *Program) Format() (s string)
 //@   noverify used by the evy command (C18); the formatter's own properties are C06/C07
+//@   modifies nothing
+
+// ---- C04: the typing relations of type.go against recursive specification functions ----
+
+// Interned type descriptors are created once and never reassigned or mutated (assumption).
+//@ global NUM_TYPE != nil && BOOL_TYPE != nil && STRING_TYPE != nil && ANY_TYPE != nil && NONE_TYPE != nil && EMPTY_ARRAY != nil && EMPTY_MAP != nil && GENERIC_ARRAY != nil && GENERIC_MAP != nil
+//@ global NUM_TYPE.Name == NUM && BOOL_TYPE.Name == BOOL && STRING_TYPE.Name == STRING && ANY_TYPE.Name == ANY && NONE_TYPE.Name == NONE && EMPTY_ARRAY.Name == ARRAY && EMPTY_MAP.Name == MAP && GENERIC_ARRAY.Name == ARRAY && GENERIC_MAP.Name == MAP
+//@ global NUM_TYPE.Sub == nil && BOOL_TYPE.Sub == nil && STRING_TYPE.Sub == nil && ANY_TYPE.Sub == nil && NONE_TYPE.Sub == nil && EMPTY_ARRAY.Sub == NONE_TYPE && EMPTY_MAP.Sub == NONE_TYPE && GENERIC_ARRAY.Sub == nil && GENERIC_MAP.Sub == nil
+//@ global EMPTY_ARRAY != EMPTY_MAP && EMPTY_ARRAY != GENERIC_ARRAY && EMPTY_MAP != GENERIC_MAP && GENERIC_ARRAY != GENERIC_MAP && !EMPTY_ARRAY.Fixed && !EMPTY_MAP.Fixed && !GENERIC_ARRAY.Fixed && !GENERIC_MAP.Fixed
+
+// Type descriptors are finite trees: depth is a well-founded measure along Sub (assumption: no cyclic types).
+//@ pure depth(t *Type) int
+//@ global forall(t, *Type, depth(t) >= 0 && (t != nil ==> depth(t.Sub) < depth(t)))
+
+// eqT: structural equality of names along the Sub chain (docs/spec.md: identical types).
+//@ pure eqT(a *Type, b *Type) bool = ite(a == nil || b == nil, a == b, a == b || (a.Name == b.Name && eqT(a.Sub, b.Sub)))
+
+// acc: assignability. A target accepts a value of an identical type; `any` accepts everything but none - at
+// the top always, below the top only while no variable-typed (Fixed) composite has been passed on the value
+// side; generic builtin parameters accept every composite of their kind; empty literals convert to every
+// composite of their kind.
+//@ pure acc(l *Type, r *Type, rf bool, top bool) bool = ite(l == nil || r == nil, l == r, l == r || (l.Name == ANY && r.Name != NONE && (top || !(rf || r.Fixed))) || (l.Name == r.Name && (l == GENERIC_ARRAY || l == GENERIC_MAP || r == EMPTY_ARRAY || r == EMPTY_MAP || acc(l.Sub, r.Sub, rf || r.Fixed, false))))
+
+// mat: operand compatibility - identical types, or an empty literal against any composite of its kind.
+//@ pure mat(l *Type, r *Type) bool = ite(l == nil || r == nil, l == r, l == r || (l.Name == r.Name && (l == EMPTY_ARRAY || l == EMPTY_MAP || r == EMPTY_ARRAY || r == EMPTY_MAP || mat(l.Sub, r.Sub))))
+
+// wfT: a type descriptor as the parser builds them - composite types have an element type all the way down
+// (generic builtin parameter types excepted at the top only).
+// (an uninterpreted predicate with its unfolding as an axiom: type descriptors are immutable once built, so the
+// predicate does not depend on later allocations)
+//@ pure wfT(t *Type) bool
+//@ global forall(t, *Type, wfT(t) ==> t != nil && (t.Name == ARRAY || t.Name == MAP ==> t.Sub != nil && wfT(t.Sub)))
+
+// infer: the declared type of a literal - an empty literal becomes the any-based composite of its kind, basic
+// types are unchanged, other composites are copied with their element type inferred.
+//@ func (t *Type) infer() (r *Type)
+//@   props C04
+//@   requires wfT(t)
+//@   ensures[C04 same-kind] r != nil && r.Name == t.Name
+//@   ensures[C04 basic-unchanged] t.Name != ARRAY && t.Name != MAP ==> r == t
+//@   ensures[C04 empty-becomes-any] t == EMPTY_ARRAY || t == EMPTY_MAP ==> fresh(r) && r.Sub == ANY_TYPE && !r.Fixed
+//@   ensures[C04 composite-copied] (t.Name == ARRAY || t.Name == MAP) && t != EMPTY_ARRAY && t != EMPTY_MAP ==> fresh(r) && r.Fixed == t.Fixed && r.Sub != nil && r.Sub.Name == t.Sub.Name
 //@   modifies nothing
